@@ -18,6 +18,9 @@ import (
 	"net/http"
 	"os"
 	"strconv"
+	"strings"
+	"sync"
+	"sync/atomic"
 	"testing"
 	"time"
 
@@ -41,6 +44,11 @@ type verifOp struct {
 	Title     string      `json:"title,omitempty"`
 	Args      []string    `json:"args,omitempty"`
 	Steps     []string    `json:"steps,omitempty"`
+	Hits      int         `json:"hits,omitempty"`
+	LatencyMs int         `json:"latency_ms,omitempty"`
+	SignalMs  int         `json:"signal_ms,omitempty"`
+	Signals   int         `json:"signals,omitempty"`
+	Workers   int         `json:"workers,omitempty"`
 }
 
 type verifSet struct {
@@ -69,6 +77,7 @@ type verifOut struct {
 	Encoded   []uint64            `json:"encoded,omitempty"`
 	StopFirst *bool               `json:"stop_first,omitempty"`
 	Returned  bool                `json:"returned,omitempty"`
+	Started   int64               `json:"started,omitempty"`
 }
 
 func TestVerifDriver(t *testing.T) {
@@ -121,6 +130,8 @@ func verifRun(op *verifOp) (res *verifOut) {
 		verifDecoder(op, res)
 	case "pump":
 		verifPump(op, res)
+	case "attackpump":
+		verifAttackPump(op, res)
 	default:
 		res.Err = "unknown op"
 	}
@@ -303,4 +314,65 @@ steps:
 	}
 	first := atk.Stop()
 	res.StopFirst = &first
+}
+
+type verifCountPacer struct{ n uint64 }
+
+func (p verifCountPacer) Pace(_ time.Duration, hits uint64) (time.Duration, bool) {
+	return 0, hits >= p.n
+}
+func (p verifCountPacer) Rate(time.Duration) float64 { return 0 }
+
+type verifSlowRT struct {
+	started *int64
+	latency time.Duration
+}
+
+func (rt verifSlowRT) RoundTrip(req *http.Request) (*http.Response, error) {
+	atomic.AddInt64(rt.started, 1)
+	time.Sleep(rt.latency)
+	return &http.Response{Status: "200 OK", StatusCode: 200, Proto: "HTTP/1.1", ProtoMajor: 1, ProtoMinor: 1,
+		Header: http.Header{}, Body: io.NopCloser(strings.NewReader("")), Request: req}, nil
+}
+
+// verifAttackPump runs a real attack (in-memory transport with the given latency, a pacer that stops after
+// op.Hits hits) behind the real processAttack and sends op.Signals interrupts op.SignalMs after the start,
+// i.e. possibly while the attack is already winding down with hits still in flight.
+func verifAttackPump(op *verifOp, res *verifOut) {
+	var started int64
+	atk := vegeta.NewAttacker(
+		vegeta.Client(&http.Client{Transport: verifSlowRT{&started, time.Duration(op.LatencyMs) * time.Millisecond}}),
+		vegeta.Workers(uint64(op.Workers)), vegeta.MaxWorkers(uint64(op.Workers)))
+	tr := vegeta.NewStaticTargeter(vegeta.Target{Method: "GET", URL: "http://verif.invalid/"})
+	results := atk.Attack(tr, verifCountPacer{uint64(op.Hits)}, 0, "pump")
+	sig := make(chan os.Signal, 1)
+	var mu sync.Mutex
+	enc := vegeta.Encoder(func(r *vegeta.Result) error {
+		mu.Lock()
+		res.Encoded = append(res.Encoded, r.Seq)
+		mu.Unlock()
+		return nil
+	})
+	go func() {
+		time.Sleep(time.Duration(op.SignalMs) * time.Millisecond)
+		for i := 0; i < op.Signals; i++ {
+			sig <- os.Interrupt
+			time.Sleep(10 * time.Millisecond)
+		}
+	}()
+	done := make(chan error, 1)
+	go func() { done <- processAttack(atk, results, enc, sig, nil) }()
+	select {
+	case err := <-done:
+		res.Err, res.Returned = verifErr(err), true
+	case <-time.After(20 * time.Second):
+		res.Err = "processAttack did not return"
+	}
+	time.Sleep(time.Duration(op.LatencyMs+50) * time.Millisecond) // every hit that was started has reached the transport by now
+	mu.Lock()
+	res.Started = atomic.LoadInt64(&started)
+	if res.Encoded == nil {
+		res.Encoded = []uint64{}
+	}
+	mu.Unlock()
 }
